@@ -11,7 +11,7 @@ import (
 func init() {
 	register(Property{
 		ID:          "C19",
-		Explanation: "Decided statically: A5 every index/slice expression in pkg/camelcase (Split, makeCase and the converter closures) is bounded by a dominating length guard, a loop bound on the same base, or the checked non-empty-group invariant of Split's accumulator (groups are created non-empty, only the fix-up statement shrinks a group, after its last read, at the increasing loop index); R1 in Split's classification loop every path of an iteration appends the rune to exactly one group, the loop ranges over the string itself and runs only for valid UTF-8 (the invalid case returns the input whole), and the result loop drops only empty groups; R2 the converters write no package-level state and build the stateful x/text Caser inside the per-call closure. A5 also covers count arguments that panic when negative (Builder.Grow, strings.Repeat, make): they must be non-negative by construction (lengths, constants, sums/products, differences under a dominating length guard). A5 is decided on linear index forms (single-definition locals replaced by their definition when nothing they mention changes in between); the group-invariant tactic compares read and shrink index as offsets from the loop variable. R2 also: no function literal of the package writes - by assignment or a mutating sync method - a variable of the function that made it (state that outlives a call of a converter). R2 also: mutating methods of package-level sync.Map/sync.Pool values are writes of package-level state. NOT decided: concat(Split(s)) == s as an equation over all strings (R1 is its structural necessary condition); totality of third-party callees (x/text/cases).",
+		Explanation: "Decided statically: A5 every index/slice expression in pkg/camelcase (Split, makeCase and the converter closures) is bounded by a dominating length guard, a loop bound on the same base, or the checked non-empty-group invariant of Split's accumulator (groups are created non-empty, only the fix-up statement shrinks a group, after its last read, at the increasing loop index); R1 in Split's classification loop every path of an iteration appends the rune to exactly one group, the loop ranges over the string itself and runs only for valid UTF-8 (the invalid case returns the input whole), and the result loop drops only empty groups; R2 the converters write no package-level state and build the stateful x/text Caser inside the per-call closure. A5 also covers count arguments that panic when negative (Builder.Grow, strings.Repeat, make): they must be non-negative by construction (lengths, constants, sums/products, differences under a dominating length guard). A5 is decided on linear index forms (single-definition locals replaced by their definition when nothing they mention changes in between); the group-invariant tactic compares read and shrink index as offsets from the loop variable. R2 also: no function literal of the package writes - by assignment or a mutating sync method - a variable of the function that made it (state that outlives a call of a converter). R2 also: mutating methods of package-level sync.Map/sync.Pool values are writes of package-level state. NOT decided: concat(Split(s)) == s as an equation over all strings (R1 is its structural necessary condition); totality of third-party callees (x/text/cases). Round 8: the group invariant reads slices.Insert (growth), slices.Delete of the last element (the shrink) and slices.DeleteFunc on the accumulator (whole groups leave).",
 		Assumptions: commonAssumptions,
 		Run:         runC19,
 	})
